@@ -6,8 +6,16 @@ import threading
 
 import vlib
 
-URI = {0: "untitled:Untitled-1", 1: "file:///vp/ws/a.st", 2: "file:///vp/ws/b.st", 3: "file:///vp/ws/c.st"}
+# document 2 has a name that needs percent-encoding in a URI (a blank and a non-ASCII letter): the same file must be
+# recognised whether it is named by a URI, found in the workspace folder or passed to the command line
+URI = {0: "untitled:Untitled-1", 1: "file:///vp/ws/a.st", 2: "file:///vp/ws/b%20%C3%A9.st", 3: "file:///vp/ws/c.st"}
 URI_INV = {v: k for k, v in URI.items()}
+
+
+def fname(u):
+    """the file name document u has on disk"""
+    from urllib.parse import unquote
+    return unquote(os.path.basename(URI[u]))
 
 
 def frame(obj):
@@ -90,10 +98,21 @@ def m_shutdown(rid):
 M_EXIT = {"jsonrpc": "2.0", "method": "exit", "params": None}
 
 
-def run_server(messages, timeout=30, close_stdin=True):
-    """messages: list of JSON-RPC objects sent after initialization.  Returns dict(frames, rc, timeout)."""
+WS_PREFIX = "file:///vp/ws/"
+
+
+def run_server(messages, timeout=30, close_stdin=True, workspace=None):
+    """messages: list of JSON-RPC objects sent after initialization.  Returns dict(frames, rc, timeout).
+    workspace: a real directory; the server is started with it as its workspace folder and the URIs file:///vp/ws/<name>
+    of the message vocabulary denote the files <workspace>/<name> (substituted on the way out and back)."""
     vlib.build()
-    data = b"".join(frame(m) for m in INIT + list(messages))
+    init = INIT
+    if workspace is not None:
+        wsuri = "file://" + os.path.abspath(workspace).rstrip("/") + "/"
+        init = [dict(INIT[0], params=dict(INIT[0]["params"], rootUri=wsuri.rstrip("/"),
+                                           workspaceFolders=[{"uri": wsuri.rstrip("/"), "name": "ws"}])), INIT[1]]
+        messages = json.loads(json.dumps(list(messages)).replace(WS_PREFIX, wsuri))
+    data = b"".join(frame(m) for m in init + list(messages))
     env = dict(os.environ)
     env.pop("RUST_LOG", None)
     p = subprocess.Popen([vlib.IRONPLCC, "lsp", "--stdio"], stdin=subprocess.PIPE, stdout=subprocess.PIPE,
@@ -107,8 +126,29 @@ def run_server(messages, timeout=30, close_stdin=True):
         o, e = p.communicate()
         rc = None
         to = True
-    frames = parse_frames(o)
+    if workspace is not None:
+        o = o.replace(wsuri.encode("utf-8"), WS_PREFIX.encode("utf-8"))     # same length is not needed: frames are re-parsed
+        frames = parse_frames_lenient(o)
+    else:
+        frames = parse_frames(o)
     return {"frames": frames, "rc": rc, "timeout": to, "stderr": e.decode("utf-8", "replace")[-2000:]}
+
+
+def parse_frames_lenient(data):
+    """like parse_frames, for a byte stream in which URIs were substituted (Content-Length no longer exact): the
+    bodies are found by scanning from each header to the next header"""
+    out = []
+    parts = data.split(b"Content-Length:")
+    for part in parts[1:]:
+        j = part.find(b"\r\n\r\n")
+        if j < 0:
+            continue
+        body = part[j + 4:]
+        try:
+            out.append(json.loads(body))
+        except ValueError:
+            out.append({"_unparsable": body.decode("utf-8", "replace")})
+    return out
 
 
 def concretize(hist, texts, always_close=True):
@@ -118,6 +158,8 @@ def concretize(hist, texts, always_close=True):
     for m in hist:
         n += 1
         k = m["k"]
+        if k == "ws":
+            continue          # the content of the workspace folder at start-up: no message (see run_server(workspace=...))
         if k == "open":
             msgs.append(m_open(URI[m["u"]], texts[m["t"]], m["v"]))
         elif k == "change":
